@@ -87,6 +87,15 @@ func seeded(prop string, base uint64, n int, mk func(i int, seed uint64) *k.Spec
 		}
 		s.Prop = prop
 		s.Seed = seed
+		// one seeded run in six with a Windows-style plugin process (TCP
+		// listeners, main and brokered), half of those with a Windows-style host
+		// as well - for the properties whose workload goes through Client+Serve
+		if u := k.H(seed, "goos", 0); tcpProps[prop] && s.Params != nil && s.Params["pgoos"] == "" && u%6 == 0 {
+			s.Params["pgoos"] = "windows"
+			if (u>>8)%2 == 0 {
+				s.Params["hgoos"] = "windows"
+			}
+		}
 		if s.Case == "" {
 			s.Case = fmt.Sprintf("seeded/%d", i)
 		}
@@ -126,3 +135,5 @@ func swarm(s *k.Spec, focus string) {
 	// runnable goroutines instead of running next
 	s.Wake = []int{0, 0, 0, 0, 50, 200, 500, 900}[(u>>24)%8]
 }
+
+var tcpProps = map[string]bool{"C03": true, "C04": true, "C06": true, "C07": true, "C09": true, "C11": true, "C12": true, "C14": true, "C15": true, "C18": true, "C20": true}
